@@ -116,6 +116,7 @@ type Exec struct {
 	topFrame    *Frame
 	cfgCache    map[*ssa.Function]*cfgInfo
 	lockMode    bool
+	sequential  bool
 	assumed     map[*Term]bool
 }
 
